@@ -10,6 +10,7 @@ import (
 
 	"pgregory.net/rapid"
 	"verif/harness/hist"
+	"verif/harness/live"
 	"verif/harness/observe"
 	"verif/harness/world"
 )
@@ -141,6 +142,13 @@ func TestC05(t *testing.T) {
 		switch rapid.IntRange(0, 5).Draw(t, "drive-variant") {
 		case 0:
 			opts.Overwrite = true // the first writer starts the tape over: that is the one explicit overwrite
+			if rapid.Bool().Draw(t, "failing-open") {
+				// one later attempt to open the drive for writing fails (its directory is gone for
+				// the moment): that call appends nothing, and the next writer still only appends
+				opts.Probe = &world.Probe{}
+				opts.Probe.Arm(world.SeamOpenWriter, rapid.IntRange(2, 7).Draw(t, "failing-open-k"), false)
+				live.S.Class("overwrite-manager:one-failing-open")
+			}
 		case 1:
 			opts.TapeLikeWriter = true
 			cfg = tapeLikeCfg(cfg)
